@@ -105,6 +105,14 @@ FaultOK   == l = 0 \/ O.skipped \/ O.fault = "" \/ O.build_err # "" \/
               /\ Bounded(OC) => O.count + (IF O.drained > 0 THEN O.drained ELSE 0) <= Expected(OC)
               /\ O.count = Want \/ O.run_class = "err"
               /\ O.unknown = 0 /\ O.variants = 0)
+\* A SOURCE THAT CANNOT SEEK (fault "noseek": every Seek to the start fails, as on a FIFO or a pipe).  AmmoProvider's
+\* NoNeedlessRewind: a provider that does not peek never repositions its file unless an entry of a further pass is
+\* wanted.  So when the bounds lie inside the first pass the run is what it is on a regular file: exactly the wanted
+\* items, Run returns nil, and the failing Seek was never attempted.
+NoSeekOK  == l = 0 \/ O.skipped \/ O.fault # "noseek" \/ O.build_err # "" \/ CutCell
+             \/ O.kind \notin NoPeekKinds \/ Expected(OC) > Entries(OC) \/
+             (/\ O.run_ret /\ O.run_class = "nil" /\ ~O.cancelled /\ O.count = Want /\ O.eofs = O.nc
+              /\ O.faults_hit = 0)
 FdSlack   == 16
 NoFdLeak  == Off \/ O.fds0 < 0 \/ O.fds <= O.fds0 + FdSlack
 =============================================================================
